@@ -456,6 +456,28 @@ func driveEnc(args []string) error {
 					fb, _ := f.Bytes()
 					emitRoundTrip(rt.Next(), fmt.Sprintf("reuse/looked/%d", i), h, append([]byte(nil), rb...), fb)
 				}
+				// the same looks, then a Reset with the zero values of both metadata types (round 10): ViewBox{} and a palette of
+				// 64 transparent blacks are metadata like any other - not "no metadata", and not the defaults
+				{
+					zb := append([]Call{}, bprog...)
+					zb[0] = mkCall("Reset", 0, 0, 0, 0)
+					var zp [64]colorRGBA
+					zb[0].Pal = palJ(zp)
+					if i%2 == 1 {
+						zb[0] = mkCall("Reset", 0, 0, 0, 0)
+						zb[0].Pal = palJ(defaultPal())
+					}
+					hz := append(append([]Call{}, a...), zb...)
+					var ez encode.Encoder
+					runHistory(&ez, hz, nil)
+					if rb, err := ez.Bytes(); err == nil {
+						var f encode.Encoder
+						runHistory(&f, zb, nil)
+						fb, _ := f.Bytes()
+						emitRoundTrip(rt.Next(), fmt.Sprintf("reuse/looked/%d/zero-metadata", i), hz, append([]byte(nil), rb...), fb)
+						stats["reuse.zero_metadata"]++
+					}
+				}
 				one(fmt.Sprintf("reuse/looked/%d/then-zero", i), []Call{})
 				one(fmt.Sprintf("reuse/looked/%d/then-zero-path", i), []Call{mkCall("StartPath", 1, 2), mkCall("RelLineTo", 3, 0), mkCall("ClosePathEndPath")})
 				stats["reuse.looked"]++
